@@ -365,13 +365,32 @@ class Engine:
     def model(self):
         """a model of the current path condition, preferring one that also satisfies self.prefer (replayable inputs)"""
         if self.prefer:
-            self.solver.push(); self.solver.add(*self.prefer)
-            r = self._check()
-            m = self.solver.model() if r == z3.sat else None
-            self.solver.pop()
+            m = self._prefer_model()
             if m is not None: return m
         r = self._check()
         return self.solver.model() if r == z3.sat else None
+
+    def _prefer_model(self):
+        """model of the current solver state satisfying as many of self.prefer as a greedy pass can keep (all of them when possible)"""
+        self.solver.push()
+        try:
+            self.solver.add(*self.prefer)
+            if self._check() == z3.sat: return self.solver.model()
+        finally:
+            self.solver.pop()
+        if len(self.prefer) > 200: return None
+        self.solver.push()
+        try:
+            if self._check() != z3.sat: return None
+            m = self.solver.model()
+            for c in self.prefer:
+                self.solver.push(); self.solver.add(c)
+                if self._check() == z3.sat:
+                    m = self.solver.model(); self.solver.pop(); self.solver.add(c)
+                else: self.solver.pop()
+            return m
+        finally:
+            self.solver.pop()
 
     def check(self, cond, msg, info=None):
         """assert cond holds on this path for all inputs; else raise a violation with a model"""
@@ -386,8 +405,8 @@ class Engine:
         if r == z3.sat:
             m = self.solver.model()
             if self.prefer:
-                self.solver.add(*self.prefer)
-                if self._check() == z3.sat: m = self.solver.model()
+                pm = self._prefer_model()
+                if pm is not None: m = pm
             self.solver.pop()
             raise AssertionViolation(msg, m, info)
         self.solver.pop()
@@ -398,7 +417,10 @@ class Engine:
         self.pending = [list(prefix or [])]
         viol = []
         base_len = len(prefix or [])
+        deadline = float(os.environ.get('VERIF_DEADLINE', '0') or 0)
         while self.pending:
+            if deadline and time.time() > deadline:
+                raise Budget('wall-clock budget of this tier exceeded with %d open paths (set VERIF_BUDGET_S to raise it)' % len(self.pending))
             self.decisions = self.pending.pop(); self.dpos = 0; self.pc = []; self.cur_model = None
             self.nchoice = 0; self.depth = 0; self.cstack = []; self.last_info = None
             self.path_steps = 0
